@@ -30,6 +30,9 @@ OUTPUT_ROWS = {
     'model+var+dev': [dict(model='GENROU', varname='delta', dev=3)],
     'two_rows': [dict(model='GENROU', varname='omega'), dict(model='Bus', varname='v')],
     'overlap': [dict(model='GENROU', varname='omega'), dict(model='GENROU', varname='omega', dev=2)],
+    # overlaps on algebraic addresses: the same variable twice, and a model's external algebraics (at bus addresses) next to Bus.v
+    'overlap_alg': [dict(model='Bus', varname='v'), dict(model='Bus', varname='v', dev=1), dict(model='Bus', varname='a')],
+    'overlap_ext': [dict(model='GENROU'), dict(model='Bus', varname='v')],
     'invalid_model': [dict(model='NoSuchModel'), dict(model='Bus', varname='v')],
     'invalid_var': [dict(model='GENROU', varname='nosuchvar'), dict(model='Bus', varname='a')],
     'invalid_dev': [dict(model='GENROU', varname='omega', dev=99), dict(model='Bus', varname='v')],
